@@ -95,6 +95,10 @@ def probes(rnd):
         # ASYNC under DISTINCT / ORDER BY / UNION (repair D51), and nested in other calls (known finding KF-async-nested)
         ("async-distinct", "SELECT DISTINCT ASYNC.VF_SLOW('t', s) AS v FROM t"),
         ("async-order", "SELECT ASYNC.VF_SLOW('t', a) AS v, s FROM t ORDER BY v DESC"),
+        # an ASYNC call whose own outcome is the (possibly still pending) slot of another ASYNC call: the row gets the VALUE
+        ("async-over-async-derived", "SELECT ASYNC.IF(1 = 1, d.v, 0) AS w FROM (SELECT ASYNC.VF_SLOW('t', a) AS v FROM t) d"),
+        ("async-over-async-subq", "SELECT ASYNC.DEFAULTKEY((SELECT ASYNC.VF_SLOW('t', a) AS v FROM dual)) AS w FROM t"),
+        ("async-over-async-identity", "SELECT ASYNC.VF_SLOW('o', d.v) AS w, d.v AS v FROM (SELECT ASYNC.VF_SLOW('t', a) AS v FROM t) d"),
         ("async-nested-concat", "SELECT CONCAT(ASYNC.VF_SLOW('t', a), 'x') AS w FROM t"),
         ("async-nested-array", "SELECT ARRAY(ASYNC.VF_SLOW('t', a), 1) AS w FROM t"),
     ]
